@@ -239,6 +239,64 @@ fn raw_level(run: &Arc<Run>, depth: usize) {
             }
         }
     });
+    // long messages: the reader unpacks a message into a buffer of its own, four bytes per integer,
+    // after the Huffman stage; how long a message it can return must not depend on the chunks read
+    // before. Lengths around every power of two up to the 64 KiB the reader's buffer holds, with
+    // contents that compress well (zeros, small integers) or not at all, as the first chunk after
+    // the tick, after a small snapshot and after a large one.
+    {
+        let mut lens: Vec<usize> = Vec::new();
+        for p in [1024usize, 2048, 4096, 8192, 16384, 32768, 65536] {
+            for d in [-8i64, -4, -3, -1, 0, 1, 4, 8] {
+                let l = p as i64 + d;
+                if l <= 65536 {
+                    lens.push(l as usize);
+                }
+            }
+        }
+        lens.extend([1500, 3000, 5000, 12000, 20000, 40000, 50000, 60000]);
+        let mut cases: Vec<(usize, u8, u8)> = Vec::new();
+        for &l in &lens {
+            for content in 0..3u8 {
+                for before in 0..3u8 {
+                    cases.push((l, content, before));
+                }
+            }
+        }
+        let big = all.len() - 1; // 40000 bytes
+        cases.par_iter().for_each(|&(l, content, before)| {
+            run.add_evals(1);
+            let m: Vec<u8> = match content {
+                0 => vec![0u8; l],
+                1 => (0..l).map(|i| if i % 4 == 0 { (i / 4 % 60) as u8 } else { 0 }).collect(),
+                _ => vp_core::lcg_bytes(9, l),
+            };
+            let mut ms2 = ms.clone();
+            ms2.push(m);
+            let mi = ms2.len() - 1;
+            let mut seq = vec![C::Tick(0, true)];
+            match before {
+                0 => {}
+                1 => seq.push(C::Snap(0)),
+                _ => seq.push(C::Snap(big)),
+            }
+            seq.push(C::Msg(mi));
+            seq.push(C::Tick(1, false));
+            seq.push(C::Msg(2));
+            let class = format!("long-message:content{}:before{}", content, before);
+            match vp_core::catch(|| write_read(&seq, &all, &ms2, (0, 0, 0, false))) {
+                Ok(Ok(_)) => run.class(&class, || json!({"message_len": l})),
+                Ok(Err(msg)) => {
+                    run.violation("c15:raw:long-message", &format!("message of {} bytes (content class {}, preceded by {}): {}", l, content, ["nothing", "a small snapshot", "a 40000-byte snapshot"][before as usize], msg), json!({"message_len": l, "content": content, "before": before}));
+                }
+                // the raw writer panics on a message it cannot store (its documented way of refusing)
+                Err(p) if p.contains("overlong message") || p.contains("too long compression") => run.class(&format!("{}:not-accepted-by-the-writer", class), || json!({"message_len": l})),
+                Err(p) => {
+                    run.violation(&format!("c15:raw:{}", vp_core::panic_sig(&p)), &format!("message of {} bytes: {}", l, p), json!({"message_len": l, "content": content, "before": before}));
+                }
+            }
+        });
+    }
     // header strings of every length up to the capacity
     let mut hdrs: Vec<(usize, usize, usize, bool)> = Vec::new();
     for l in 0..64 {
@@ -541,7 +599,7 @@ fn main() {
     typed_level(&run, if thorough { 5 } else { 4 }, true);
     run.assume("raw writer: tick numbers strictly increase (its documented precondition); payloads whose compressed form does not fit a 16-bit size are not 'accepted by the writer' and are not generated");
     run.finish(
-        "raw level: all chunk sequences up to the depth over {tick +1/+31/+32/+33, key-frame ticks, snapshot / delta payloads with compressed sizes on both sides of 29/30 and 255/256, messages of length 0,1,3,4,5,64,100}, every payload size incl. the largest representable, header strings of every length, every tick gap 1..1100 and around every power of two up to 2^30, every pair of absolute tick numbers out of 31 values from i32::MIN to i32::MAX (negative ticks, gaps wider than i32::MAX); typed level: all world histories up to the depth over 5 object sets (ordinal objects, UUID-typed objects of sizes 1 and 2) x tick steps {+1,+250,+251} x non-increasing ticks (must be refused, recording stays usable), and one step shorter with calls the writer may refuse for another reason (the same object twice, 1030 objects, a snapshot whose byte form exceeds 64 KiB, a 70000-byte chat message) and game messages through DemoWriter::write_msg - whatever is accepted after a refusal must be played back exactly; written with the real writers into memory, read back with the real readers, compared chunk by chunk, zero warnings",
+        "raw level: all chunk sequences up to the depth over {tick +1/+31/+32/+33, key-frame ticks, snapshot / delta payloads with compressed sizes on both sides of 29/30 and 255/256, messages of length 0,1,3,4,5,64,100}, long messages (1 KiB .. 64 KiB around every power of two, three contents, alone / after a small / after a large snapshot), every payload size incl. the largest representable, header strings of every length, every tick gap 1..1100 and around every power of two up to 2^30, every pair of absolute tick numbers out of 31 values from i32::MIN to i32::MAX (negative ticks, gaps wider than i32::MAX); typed level: all world histories up to the depth over 5 object sets (ordinal objects, UUID-typed objects of sizes 1 and 2) x tick steps {+1,+250,+251} x non-increasing ticks (must be refused, recording stays usable), and one step shorter with calls the writer may refuse for another reason (the same object twice, 1030 objects, a snapshot whose byte form exceeds 64 KiB, a 70000-byte chat message) and game messages through DemoWriter::write_msg - whatever is accepted after a refusal must be played back exactly; written with the real writers into memory, read back with the real readers, compared chunk by chunk, zero warnings",
         true,
     );
 }
